@@ -356,4 +356,16 @@ def sortNatural {α} (name : α → List Char) : List α → Option (List α)
 def mergeFiles {α} (files : List (List Char × List α)) : Option (List α) :=
   (sortNatural (·.1) files).map (fun fs => fs.flatMap (·.2))
 
+/-- `merge_files(..., copy_header=False, header_lines=k)` (repair `fix_merge_header`): of every part the first `k` lines
+    - the lines its writer put before the first record - are skipped, whatever the records look like; both GTF merges
+    and the read-to-model merge pass `k = 0` (`GFFPrinter` writes the per-chromosome files without a header), which is
+    `mergeFiles` -/
+def mergeFilesH {α} (k : Nat) (files : List (List Char × List α)) : Option (List α) :=
+  (sortNatural (·.1) files).map (fun fs => fs.flatMap (fun f => f.2.drop k))
+
+/-- `merge_files(..., copy_header=False)` of the tree BEFORE the repair: the leading lines of every part that start
+    with `#` (`isHdr`) were taken for header lines - for a contig named `#c1` that is every record of its GTF -/
+def mergeFilesOrig {α} (isHdr : α → Bool) (files : List (List Char × List α)) : Option (List α) :=
+  (sortNatural (·.1) files).map (fun fs => fs.flatMap (fun f => f.2.dropWhile isHdr))
+
 end IsoVerif.Model.C03
